@@ -105,7 +105,13 @@ class C(Check):
                 # a count field asked for more memory than ASan is willing to hand out: a normal build throws std::bad_alloc / std::length_error here
                 self.count('allocation-refused (exception in a normal build)')
                 continue
+            if r.status == 'timeout' and self.cov.get('timeouts-re-run-alone', 0) >= 8:
+                # the sequential re-runs are capped (each may take two minutes); further time-outs of this run stay undecided
+                self.count('timed-out (not re-run, inconclusive)')
+                self.inconclusive += 1
+                continue
             if r.status == 'timeout':
+                self.count('timeouts-re-run-alone')
                 # a time-out under 16-fold load is not a verdict: run the case again on its own with a generous limit
                 from vlib.core import run_one
                 r2, _ = run_one('asan', cid + 'r', stmts, timeout=120, env_extra=ENV)
